@@ -189,6 +189,7 @@ StepResult(st, o, c, sc) ==
             ELSE IF o.oc = "ok" /\ ~StaticMatches(o.sty, o.val)
                  THEN "static type " \o ToJson(o.sty) \o " but the value is " \o ToJson(ObsType(o.val))
             ELSE IF o.oc = "ok" /\ ~Uniform(o.val) THEN "the value is not uniform / well formed"
+            ELSE IF Has(o, "second_failed") THEN "two evaluations in the same state differ: the first one gave a value, the second one failed (" \o o.name \o ")"
             ELSE IF o.oc = "ok" /\ Has(o, "val2") /\ ~VSame(o.val, o.val2) THEN "two evaluations in the same state differ"
             ELSE IF Has(st, "wanterr") THEN
                  (IF o.oc = "runtime_error" /\ o.name = st.wanterr THEN "" ELSE "expected the error " \o st.wanterr \o ", got " \o o.oc \o " " \o Fld(o, "name", ""))
@@ -350,6 +351,8 @@ StepResult(st, o, c, sc) ==
          [C |-> PutCtx(c, st.ctx, [State0 EXCEPT !.unk = TRUE]),
           why |-> IF o.oc \notin {"ok", "parse_error", "runtime_error"} THEN "outcome outside the alphabet: " \o o.oc
                   \* a text that can only go on by running a method on an object of another module (C17)
+                  \* a prelude the generator relies on: when it does not run the scenario means nothing (generator bug, machinery failure)
+                  ELSE IF Has(st, "prelude") /\ o.oc # "ok" THEN "UNDECIDED: the prelude did not run: " \o o.oc
                   ELSE IF Has(st, "must_fail") /\ o.oc = "ok" THEN "the program completed although it calls a method on an object of another module"
                   \* the module's own log of the step: which events (create / method / destroy), in order; no method on a destroyed object
                   ELSE IF Has(st, "expect_ev") /\ [j \in DOMAIN o.ev |-> o.ev[j].e] # st.expect_ev
